@@ -269,8 +269,8 @@ class OnDiskBitSet(BaseBitSet):
         self._bytecount = bytecount
 
     def __repr__(self):
-        return "%s(%s, %d, %d)" % (self.__class__.__name__, self.dbfile,
-                                   self._basepos, self.bytecount)
+        return "%s(%s, %d, %d)" % (self.__class__.__name__, self._dbfile,
+                                   self._basepos, self._bytecount)
 
     def byte_count(self):
         return self._bytecount
